@@ -290,22 +290,22 @@ theorem init_index (c : RelCfg) (rows : List RRow) (r : Rel) (h : Rel.init c row
 
 theorem relCfg_mirror (s : Sim) : (mirror s).relCfg = C10.mirrorCfg s.relCfg := rfl
 
-/-- the two releasers refuse alike or accept alike -/
-theorem rel_mirror (s : Sim) (hrev : s.rev = true) (hc : s.continuous = false) (hw : s.warm = none)
+/-- the two releasers refuse alike or accept alike (cold or warm start) -/
+theorem rel_mirror (s : Sim) (hrev : s.rev = true) (hc : s.continuous = false)
     (hrt : s.pvNames.contains "release_time" = false) :
     match Rel.init s.relCfg s.rows, Rel.init (mirror s).relCfg (mirror s).rows with
     | .ok r, .ok r' => r'.steps = r.steps ∧ r'.total = r.total ∧
         r'.groups = r.groups.map (fun g => g.map (C10.mirrorRow s.start))
     | .error e, .error e' => e = e'
     | _, _ => False :=
-  C10.release_mirror s.relCfg hrev hc hrt (Simulation.relCfg_warm s hw) s.rows
+  C10.release_mirror s.relCfg hrev hc hrt s.rows
 
 /-- the release table of the mirrored run is that of the reversed run with mirrored times -/
-theorem relTable_mirror (s : Sim) (hrev : s.rev = true) (hc : s.continuous = false) (hw : s.warm = none)
+theorem relTable_mirror (s : Sim) (hrev : s.rev = true) (hc : s.continuous = false)
     (hrt : s.pvNames.contains "release_time" = false) (rel rel' : Rel)
     (h : Rel.init s.relCfg s.rows = .ok rel) (h' : Rel.init (mirror s).relCfg (mirror s).rows = .ok rel') (n : Nat) :
     rel'.run 0 n = (rel.run 0 n).map (fun (k, rows) => (k, rows.map (C10.mirrorRow s.start))) := by
-  have hm := rel_mirror s hrev hc hw hrt
+  have hm := rel_mirror s hrev hc hrt
   rw [h, h'] at hm
   exact run_map s.start n rel rel' 0 hm.1 hm.2.2 (by rw [init_index _ _ _ h, init_index _ _ _ h'])
 
@@ -335,7 +335,7 @@ theorem releaseAt_mirror (s : Sim) (tab : List (Int × List RRow)) (n : Int) :
 
 /-- the loop environments of the two runs are equal -/
 theorem envOf_mirror (s : Sim) (rnd : Rat → Rat) (hrev : s.rev = true) (hc : s.continuous = false)
-    (hw : s.warm = none) (hrt : s.pvNames.contains "release_time" = false) (hv : s.vertAdv = false)
+    (hrt : s.pvNames.contains "release_time" = false) (hv : s.vertAdv = false)
     (g : GridM) (rel rel' : Rel) (h : Rel.init s.relCfg s.rows = .ok rel)
     (h' : Rel.init (mirror s).relCfg (mirror s).rows = .ok rel') (N : Nat) :
     Simulation.envOf (mirror s) g rel' N rnd = Simulation.envOf s g rel N rnd := by
@@ -350,7 +350,7 @@ theorem envOf_mirror (s : Sim) (rnd : Rat → Rat) (hrev : s.rev = true) (hc : s
   · funext n
     show (((rel'.run 0 (N + 1)).lookup n).getD []).map (mirror s).rowToRP =
       (((rel.run 0 (N + 1)).lookup n).getD []).map s.rowToRP
-    rw [relTable_mirror s hrev hc hw hrt rel rel' h h' (N + 1)]
+    rw [relTable_mirror s hrev hc hrt rel rel' h h' (N + 1)]
     exact releaseAt_mirror s _ n
   · rfl
   · rfl
@@ -452,7 +452,7 @@ theorem reverse_eq_mirror_noVert (s : Sim) (rnd : Rat → Rat) (hrev : s.rev = t
       rw [Simulation.refuses_bad_grid s rnd tk htk hg,
         Simulation.refuses_bad_grid (mirror s) rnd tk' htk' hg]
     | some g =>
-      have hm := rel_mirror s hrev hc hw hrt
+      have hm := rel_mirror s hrev hc hrt
       cases hr : Rel.init s.relCfg s.rows with
       | error e =>
         cases hr' : Rel.init (mirror s).relCfg (mirror s).rows with
@@ -469,7 +469,7 @@ theorem reverse_eq_mirror_noVert (s : Sim) (rnd : Rat → Rat) (hrev : s.rev = t
           obtain ⟨b, hb, hbn, hbf⟩ := run_cold (mirror s) rnd tk' g rel' htk' hg hr' hw
           rw [ha, hb]
           have hfin : b.final = a.final := by
-            rw [hbf, haf, ← hn, envOf_mirror s rnd hrev hc hw hrt hv g rel rel' hr hr']
+            rw [hbf, haf, ← hn, envOf_mirror s rnd hrev hc hrt hv g rel rel' hr hr']
           exact ⟨by rw [hbn, han, hn], by rw [hfin], by rw [hfin], by rw [hfin], by rw [hfin]⟩
   · -- stop = start: the reversed clock refuses, the forward releaser has an empty window
     cases hg : mkGrid s.file s.sub with
